@@ -502,8 +502,10 @@ def stage_t(chk, bindir, tier, stats):
                     stats["known_late_passive_read_concurrent"] += 1
             elif x.get("writing_during"):
                 # a segment directory was being written while the read ran (hook counters flush.start / flush.written)
-                if chk.classify([PARTIAL_ID], desc + ", a segment was being written during the read", {"record": x}) == "known":
-                    stats["known_partial_segment_concurrent"] += 1
+                # reads issued while a segment is written can lose that segment's rows (or return them with null cells,
+                # which this stage drops) from then on: open finding, statistical signature only
+                if chk.classify(["C03-null-cells-after-read-during-segment-write"], desc + ", a segment was being written during the read", {"record": x}) == "known":
+                    stats["known_poisoned_segment_view_concurrent"] += 1
             else:
                 chk.violation(desc, {"record": x})
     for tag in ("FOREIGN",):
